@@ -46,6 +46,12 @@ theorem constrained_range_sound (β : Nat → Int → Bool) (start stop : Int) (
         (C17.intRange start stop).filter (fun x => cs.all (fun c => c.holds β x)) :=
   C17.rangeFold_sound β start stop cs
 
+/-- `remove_redundant_boolop_values`, as it runs (repeated by `processing.fix`): the kept operands have the value of the chain -/
+theorem boolop_values_preserves {α : Type} (truthy : α → Bool) (n : Nat) (l : List (Option Bool × α)) (h : C15.Consistent truthy l) :
+    C15.evalAnd truthy ((C15.iterPass C15.passAnd n l).map (·.2)) = C15.evalAnd truthy (l.map (·.2)) ∧
+    C15.evalOr truthy ((C15.iterPass C15.passOr n l).map (·.2)) = C15.evalOr truthy (l.map (·.2)) :=
+  C15.boolop_values_iterated_sound truthy n l h
+
 /-! ## control-flow rules: a proved validator
 
 `C16.Equiv l l'`: under every oracle (= every valuation of the unknown tests and every iteration count) and from every
@@ -102,7 +108,7 @@ example : C16.validate
 /-- rules with a theorem above (names as in the pipeline table); everything else: sweep only -/
 def modelledRules : List String :=
   ["fixes.delete_unreachable_code", "fixes.remove_dead_ifs", "fixes.swap_if_else", "fixes.early_return", "fixes.early_continue",
-   "fixes.remove_redundant_else", "fixes.breakout_common_code_in_ifs (trailing code)",
+   "fixes.remove_redundant_else", "fixes.breakout_common_code_in_ifs (trailing code)", "fixes.remove_redundant_boolop_values",
    "fixes.replace_negated_numeric_comparison", "symbolic_math.simplify_boolean_expressions", "symbolic_math.simplify_constrained_range"]
 
 end C02
